@@ -24,6 +24,9 @@ type ectx struct {
 	results []Val
 	where   string
 	noFacts bool // axiom bodies: no side facts
+	// evaluating a callee's contract at a call site: the callee's own accounting (callcount,
+	// handed, invoked, spawncount, sendcount, resolved) says nothing about the caller's
+	atCallSite bool
 }
 
 type verr struct{ msg string }
